@@ -8,6 +8,6 @@ void h_parse_object(void)
     VF_COVER(r && g_nit_calls == 0);
     VF_COVER(r && g_nit_calls == 2);
     VF_COVER(!r && g_nit_calls == 2 && g_pv_calls == 3);
-    VF_COVER(!r && g_nit_calls == 1 && g_pv_calls == 2 && g_pvok[1]);
+    VF_COVER(!r && g_nit_calls == 1 && g_pv_calls == 2 && g_pvl[1].ok);
     VF_COVER(!r && g_nit_calls == 0 && g_pv_calls == 0);
 }
